@@ -112,6 +112,14 @@ pub open spec fn msg_rr_family(m: bgp::Message) -> Family {
     match m { bgp::Message::RouteRefresh { family } => family, _ => arbitrary() }
 }
 
+// ---- hashing: fnv + derived Hash/Eq of Family behave like a proper key (assumed) -----------------
+pub broadcast axiom fn axiom_family_obeys_key_model()
+    ensures #[trigger] vstd::std_specs::hash::obeys_key_model::<Family>(),
+;
+pub broadcast axiom fn axiom_fnv_builds_valid_hashers()
+    ensures #[trigger] vstd::std_specs::hash::builds_valid_hashers::<core::hash::BuildHasherDefault<fnv::FnvHasher>>(),
+;
+
 // ---- std ---------------------------------------------------------------------------------------
 
 #[verifier::allow(undeclared_external_trait)]
